@@ -28,7 +28,8 @@ def run(chk, F):
 
 
 def gates(chk, F):
-    fn = F.find(CORE, EVALQ)
+    # private helpers of eval_query are its own code (`extract function`); conformance_err is named by the rule and stays a call
+    fn = F.find(CORE, EVALQ, inline=True, keep=("::conformance_err", "::find_quantity", "::to_list"))
     fk = "rink_core::" + EVALQ
     shows = [(bb, t) for bb, t in fn.calls() if "callee" in t and t["callee"]["path"].endswith("loader::context::Context::show")]
     if len(shows) != 2:
